@@ -264,6 +264,24 @@ class Generator(CodeGenerator):
     def register_checks(self, verifier: Verifier) -> None:  # type: ignore
         """Register cpp specific checks."""
 
+        @register(verifier, "field")  # type: ignore
+        def check_integer_width(
+            self: Any, fcp: FcpV2, struct_field: Any
+        ) -> Result[Nil, FcpError]:
+            """Check that an integer field has a carrier type (1 to 64 bits)."""
+            struct, field = struct_field
+            element = field.type
+            while hasattr(element, "underlying_type"):
+                element = element.underlying_type
+            if isinstance(element, (type.UnsignedType, type.SignedType)):
+                if not 1 <= element.get_length() <= 64:
+                    return error(
+                        f"Field {field.name} of struct {struct.name} is an integer of "
+                        f"{element.get_length()} bits: 1 to 64 are supported",
+                        node=field,
+                    )
+            return Ok(())
+
         @register(verifier, "service")  # type: ignore
         def check_service_rpc(
             self: Any, fcp: FcpV2, service: Any
